@@ -232,6 +232,56 @@ func runConc(args []string) int {
 	close(start2)
 	wg.Wait()
 
+	// ---- phase 3: the FIRST use of a fresh private key object, many times over: a new (equal-valued) key per trial, all
+	// workers released together, each entering through a different method.  A trial that does not finish within 20 s is a
+	// deadlock (lock order / recursive read lock around the memoised public key) and is reported as such.
+	trials := 60 * *rounds
+	for k := 0; k < trials; k++ {
+		fresh, err := bip32.NewMaster(seedBytes, &chaincfg.MainNet)
+		if err != nil {
+			break
+		}
+		go3 := make(chan struct{})
+		done := make(chan struct{})
+		var wg3 sync.WaitGroup
+		for w := 0; w < *workers; w++ {
+			wg3.Add(1)
+			go func(w int) {
+				defer wg3.Done()
+				<-go3
+				switch (w + k) % 5 {
+				case 0:
+					n, _ := fresh.Neuter()
+					put("fresh.neuter", n.String())
+				case 1:
+					put("fresh.address", fresh.Address(&chaincfg.MainNet))
+				case 2:
+					ch, _ := fresh.Child(3)
+					put("fresh.child3", ch.String())
+				case 3:
+					pk, _ := fresh.ECPubKey()
+					put("fresh.ecpub", hx(pk.SerialiseCompressed()))
+				case 4:
+					n, _ := fresh.Neuter()
+					pc, _ := n.Child(1)
+					put("fresh.neuter.child1", pc.String())
+				}
+			}(w)
+		}
+		close(go3)
+		go func() { wg3.Wait(); close(done) }()
+		select {
+		case <-done:
+		case <-time.After(20 * time.Second):
+			mu.Lock() // workers that are not stuck may still be recording
+			res.Mismatches = append(res.Mismatches, fmt.Sprintf("fresh.first-use: trial %d with %d workers did not return within 20 s (deadlock)", k, res.Workers))
+			out, _ := json.Marshal(res)
+			mu.Unlock()
+			fmt.Println(string(out))
+			return 1
+		}
+	}
+
 	// every call must have returned what it returns alone: all results of a scenario are equal,
 	// and equal to a fresh sequential evaluation where one is cheap to redo here
 	for name, vals := range record {
